@@ -152,8 +152,13 @@ func (c GateConfig[R]) Override(other GateConfig[R]) GateConfig[R] {
 func (c *Controller[R]) LeadingState() (state *State) {
 	c.mu.RLock()
 	defer c.mu.RUnlock()
-	if len(c.regions) != 0 && len(c.regions[0].gates) != 0 {
-		state = c.regions[0].curr.state()
+	if len(c.regions) != 0 {
+		r := c.regions[0]
+		r.RLock()
+		if len(r.gates) != 0 {
+			state = r.curr.state()
+		}
+		r.RUnlock()
 	}
 	return
 }
